@@ -232,3 +232,54 @@ Example restore_ok_somewhere :
   | inr _ => false
   end = true.
 Proof. vm_compute. reflexivity. Qed.
+
+Lemma add_voter_simple t li id c p :
+  changer_simple t li [mkCCS CCAddNode id] = inl (c, p) ->
+  forall x, In x (c_voters c) <-> (x = id /\ id <> 0) \/ In x (c_voters (t_config t)).
+Proof.
+  unfold changer_simple. intros H x.
+  destruct (check_and_return (cfg_clone (t_config t)) (t_progress t)) as [[c0 p0]|] eqn:E0; [|discriminate].
+  apply check_and_return_ok in E0. destruct E0 as (-> & -> & I0).
+  destruct (joint _) eqn:J; [discriminate|].
+  destruct (cc_apply _ _ _ _ _ _) as [[c2 p2]|] eqn:EA; [|discriminate].
+  destruct (1 <? symdiff _ _) eqn:SD; [discriminate|].
+  apply check_and_return_ok in H. destruct H as (-> & -> & I2).
+  cbn [cc_apply ccs_node ccs_type] in EA.
+  destruct (N.eqb_spec id 0) as [Z|NZ].
+  - destruct (N.eqb _ 0); [discriminate|]. inversion EA; subst. cbn. intuition congruence.
+  - unfold make_voter in EA. destruct (alookup (t_progress t) id); unfold init_progress in EA; cbn in EA;
+      (destruct (N.eqb _ 0); [discriminate|]); inversion EA; subst; cbn; rewrite sinsert_In; intuition auto.
+Qed.
+
+Lemma chain_add_voters li : forall ids t t',
+  chain_simple t li (map (mkCCS CCAddNode) ids) = inl t' ->
+  forall x, In x (c_voters (t_config t')) <-> (In x ids /\ x <> 0) \/ In x (c_voters (t_config t)).
+Proof.
+  induction ids as [|id ids IH]; intros t t' H x; cbn [map chain_simple] in H.
+  - inversion H; subst. cbn. tauto.
+  - destruct (changer_simple t li [mkCCS CCAddNode id]) as [[c p]|e] eqn:E; [|discriminate].
+    apply IH with (x := x) in H. rewrite H. cbn [t_with_config_progress t_config].
+    rewrite (add_voter_simple _ _ _ _ _ E x). cbn [In]. intuition (subst; auto).
+Qed.
+
+(* Restore of a joint ConfState: the outgoing half of the result is the ConfState's
+   VotersOutgoing (as a set, ids 0 skipped) on top of the voters the tracker started with *)
+Theorem restore_outgoing t li cs c p :
+  cc_restore t li cs = inl (c, p) -> cs_voters_outgoing cs <> [] ->
+  forall x, In x (c_outgoing c) <-> (In x (cs_voters_outgoing cs) /\ x <> 0) \/ In x (c_voters (t_config t)).
+Proof.
+  unfold cc_restore, to_cc_single. intros H NO x.
+  destruct (map (mkCCS CCAddNode) (cs_voters_outgoing cs)) as [|o os] eqn:EO.
+  { destruct (cs_voters_outgoing cs); [congruence|discriminate]. }
+  rewrite <- EO in H.
+  destruct (chain_simple t li _) as [t'|e] eqn:EC; [|discriminate].
+  apply changer_enter_joint_ok in H. destruct H as (_ & _ & O & _).
+  rewrite O. eapply chain_add_voters; exact EC.
+Qed.
+
+Corollary restore_outgoing_fresh mi mb li cs c p :
+  cc_restore (make_tracker mi mb) li cs = inl (c, p) -> cs_voters_outgoing cs <> [] ->
+  forall x, In x (c_outgoing c) <-> In x (cs_voters_outgoing cs) /\ x <> 0.
+Proof.
+  intros H NO x. rewrite (restore_outgoing _ _ _ _ _ H NO x). cbn. tauto.
+Qed.
